@@ -128,7 +128,8 @@ Lemma eq_go_frel_r sc fs raw raw' :
   forall ra, eq_go sc ra raw' fs = eq_go sc ra raw fs.
 Proof.
   induction 1 as [fs|f fs x x' r r' Hx Hr IH|x r r' Hr IH]; intros ra; try reflexivity.
-  destruct ra as [|y ra]; [reflexivity|]. cbn [eq_go]. rewrite Hx, IH. reflexivity.
+  - destruct ra as [|y ra]; [reflexivity|]. cbn [eq_go]. rewrite Hx, IH. reflexivity.
+  - destruct ra as [|y ra]; reflexivity.
 Qed.
 
 Lemma fcmp_placeholder_l sc f y : fcmp sc f PPlaceholder y = isdef' sc f y.
@@ -146,7 +147,8 @@ Section Wf.
     intros Hin. pose proof (opt_ok_field sc c f Hopt Hin) as Ho. unfold opt_hint_ok in Ho. unfold slot.
     destruct (fopt f); [|split; [apply fcmp_placeholder_l | apply fcmp_placeholder_r]].
     destruct (fhint f) as [| | |] eqn:Hh; try discriminate.
-    destruct y; cbn [fcmp isdef' pv_eq pv_is_nan orb andb]; unfold is_default; rewrite Hh; split; reflexivity.
+    destruct y as [| | | | | | | | | | |[c2 r2 s2 u2 g2]]; cbn [fcmp isdef' pv_eq pv_is_nan orb andb]; unfold is_default;
+      rewrite Hh, ?andb_false_r; split; reflexivity.
   Qed.
 
   Lemma eq_go_slots c rb :
@@ -173,18 +175,18 @@ Section Wf.
     intros Hnm y. rewrite fcmp_placeholder_l, fcmp_placeholder_r.
     unfold default_of. destruct (fhint f) as [t| | |] eqn:Hh.
     - destruct t; try (exfalso; eapply Hnm; reflexivity);
-        destruct y; cbn [fcmp isdef' pv_eq pv_is_nan orb andb]; unfold is_default; rewrite Hh;
+        destruct y as [| |z|b|bits|utf8|b|us|us|l|d|[c2 r2 s2 u2 g2]]; cbn [fcmp isdef' pv_eq pv_is_nan orb andb]; unfold is_default; rewrite Hh, ?andb_false_r, ?orb_false_r;
         try (split; reflexivity);
-        change (f64_is_nan 0) with false; cbn [andb orb]; rewrite ?orb_false_r, ?f64_eq_zero_l, ?f64_eq_zero_r;
+        change (f64_is_nan 0) with false; cbn [andb orb]; rewrite ?andb_false_r, ?orb_false_r, ?f64_eq_zero_l, ?f64_eq_zero_r;
         try (split; reflexivity).
       all: try (rewrite (Z.eqb_sym 0); split; reflexivity).
       all: try (destruct b; split; reflexivity).
       all: try (destruct utf8; split; reflexivity).
       all: try (destruct b as [|b0 b]; split; reflexivity).
-    - destruct y; cbn [fcmp isdef' pv_eq pv_is_nan orb andb]; unfold is_default; rewrite Hh; split; reflexivity.
-    - destruct y; cbn [fcmp isdef' pv_eq pv_is_nan orb andb]; unfold is_default; rewrite Hh; try (split; reflexivity).
+    - destruct y as [| |z|b|bits|utf8|b|us|us|l|d|[c2 r2 s2 u2 g2]]; cbn [fcmp isdef' pv_eq pv_is_nan orb andb]; unfold is_default; rewrite Hh, ?andb_false_r, ?orb_false_r; split; reflexivity.
+    - destruct y as [| |z|b|bits|utf8|b|us|us|l|d|[c2 r2 s2 u2 g2]]; cbn [fcmp isdef' pv_eq pv_is_nan orb andb]; unfold is_default; rewrite Hh, ?andb_false_r, ?orb_false_r; try (split; reflexivity).
       destruct l; split; reflexivity.
-    - destruct y; cbn [fcmp isdef' pv_eq pv_is_nan orb andb]; unfold is_default; rewrite Hh; try (split; reflexivity).
+    - destruct y as [| |z|b|bits|utf8|b|us|us|l|d|[c2 r2 s2 u2 g2]]; cbn [fcmp isdef' pv_eq pv_is_nan orb andb]; unfold is_default; rewrite Hh, ?andb_false_r, ?orb_false_r; try (split; reflexivity).
       destruct d as [|[k0 v0] d]; split; reflexivity.
   Qed.
 
@@ -193,14 +195,24 @@ Section Wf.
     (forall y, fcmp sc f v' y = fcmp sc f v y /\ fcmp sc f y v' = fcmp sc f y v).
 
   (* from the == invariance of two non-placeholder values to the field comparison *)
+  Lemma fcmp_np_l f v y :
+    v <> PPlaceholder ->
+    fcmp sc f v y = match y with PPlaceholder => is_default sc f v | _ => pv_eq sc v y || (pv_is_nan v && pv_is_nan y) end.
+  Proof. intros Hv. destruct v; try (contradiction Hv; reflexivity); destruct y; reflexivity. Qed.
+
+  Lemma fcmp_np_r f v y :
+    v <> PPlaceholder ->
+    fcmp sc f y v = match y with PPlaceholder => is_default sc f v | _ => pv_eq sc y v || (pv_is_nan y && pv_is_nan v) end.
+  Proof. intros Hv. destruct v; try (contradiction Hv; reflexivity); destruct y; reflexivity. Qed.
+
   Lemma fcmp_of_eqv f v v' :
     v <> PPlaceholder -> v' <> PPlaceholder -> pv_is_nan v' = pv_is_nan v ->
     (forall g, is_default sc g v' = is_default sc g v) -> eqv sc v v' ->
     forall y, fcmp sc f v' y = fcmp sc f v y /\ fcmp sc f y v' = fcmp sc f y v.
   Proof.
     intros Hv Hv' Hn Hd He y. destruct (He y) as [E1 E2].
-    destruct v; try (contradiction Hv; reflexivity); destruct v'; try (contradiction Hv'; reflexivity);
-      destruct y; cbn [fcmp]; rewrite ?Hd, ?E1, ?E2, ?Hn; split; reflexivity.
+    rewrite (fcmp_np_l f v' y Hv'), (fcmp_np_l f v y Hv), (fcmp_np_r f v' y Hv'), (fcmp_np_r f v y Hv).
+    rewrite Hd, E1, E2, Hn. split; reflexivity.
   Qed.
 
   Lemma mat_elem_eqv f l' :
@@ -210,7 +222,7 @@ Section Wf.
     induction 1 as [|x' l' Hx Hl IH]; intros l Hm; destruct l as [|x l]; cbn [mat_list] in Hm; try discriminate; constructor.
     - apply andb_true_iff in Hm as [H1 _]. unfold mat_elem in H1.
       destruct x; try (apply pv_same_sound in H1; subst; apply eqv_refl).
-      destruct x'; try (apply pv_same_sound in H1; subst; apply eqv_refl).
+      destruct x'; try (match goal with Hp : pv_same (PMsg ?o) _ = true |- _ => destruct o; cbn [pv_same] in Hp; discriminate Hp end).
       apply (Hx f _ H1). discriminate.
     - apply andb_true_iff in Hm as [_ H2]. apply IH. exact H2.
   Qed.
@@ -224,14 +236,14 @@ Section Wf.
     - apply andb_true_iff in Hm as [H1 _]. apply andb_true_iff in H1 as [H0 H1]. apply pv_same_sound in H0.
       split; [exact H0|]. cbn [fst snd] in *. unfold mat_elem in H1.
       destruct x; try (apply pv_same_sound in H1; subst; apply eqv_refl).
-      destruct x'; try (apply pv_same_sound in H1; subst; apply eqv_refl).
+      destruct x'; try (match goal with Hp : pv_same (PMsg ?o) _ = true |- _ => destruct o; cbn [pv_same] in Hp; discriminate Hp end).
       apply (Hx f _ H1). discriminate.
     - apply andb_true_iff in Hm as [_ H2]. apply IH. exact H2.
   Qed.
 
   Lemma is_default_nonmsg_hint f c y :
     fhint f = HPlain (PyMsg c) -> (forall o, y <> PMsg o) -> is_default sc f y = false.
-  Proof. intros Hh Hy. unfold is_default. rewrite Hh. destruct y; try reflexivity. exfalso. eapply Hy. reflexivity. Qed.
+  Proof. intros Hh Hy. destruct y; try (exfalso; eapply Hy; reflexivity); unfold is_default; rewrite Hh; reflexivity. Qed.
 
   Lemma mat_pv_eq : forall v' f v, mat sc f v v' = true -> GB f v v'.
   Proof.
@@ -241,7 +253,7 @@ Section Wf.
     1: { subst. split; [intros Hn; contradiction Hn; reflexivity | intros y; split; reflexivity]. }
     (* scalars *)
     1-8: (split; [intros Hn; rewrite (src_id sc f v Hn) in Hs; subst; apply eqv_refl|];
-          destruct v; cbn [src] in Hs; try (rewrite <- Hs; intros y; split; reflexivity);
+          destruct v; cbn [src] in Hs; try (intros y; split; reflexivity); try (rewrite <- Hs; intros y; split; reflexivity);
           rewrite <- Hs; apply fcmp_default_nonmsg; intros c Hc;
           unfold default_of in Hs; rewrite Hc in Hs; discriminate Hs).
     - (* list *)
@@ -267,31 +279,33 @@ Section Wf.
     - (* message *)
       inversion Hv'; subst c0 raw0' sow0 unk0 cur0. clear Hv'.
       pose proof (mat_go_frel sc GB raw H raw0 _ Hg) as Hf.
-      set (fs := cfields (get_class sc c)) in *.
-      assert (El : forall rb, eq_go sc raw rb fs = eq_go sc raw0 rb fs).
+      assert (El : forall rb, eq_go sc raw rb (cfields (get_class sc c)) = eq_go sc raw0 rb (cfields (get_class sc c))).
       { apply eq_go_frel_l. eapply frel_impl; [|exact Hf]. intros g x x' [_ [_ Hx]] y. apply Hx. }
-      assert (Er : forall ra, eq_go sc ra raw fs = eq_go sc ra raw0 fs).
+      assert (Er : forall ra, eq_go sc ra raw (cfields (get_class sc c)) = eq_go sc ra raw0 (cfields (get_class sc c))).
       { apply eq_go_frel_r. eapply frel_impl; [|exact Hf]. intros g x x' [_ [_ Hx]] y. apply Hx. }
       assert (He : forall s1 u1 g1 s2 u2 g2, eqv sc (PMsg (Obj c raw0 s1 u1 g1)) (PMsg (Obj c raw s2 u2 g2))).
       { intros s1 u1 g1 s2 u2 g2 y. destruct y as [| | | | | | | | | | |[c2 rb s3 u3 g3]]; try (split; reflexivity).
-        rewrite !pv_eq_msg. fold fs. rewrite El. split; [reflexivity|].
-        destruct (Nat.eqb c2 c) eqn:Ec; [|reflexivity]. apply Nat.eqb_eq in Ec. subst c2. fold fs. rewrite Er. reflexivity. }
+        rewrite !pv_eq_msg. rewrite El. split; [reflexivity|].
+        destruct (Nat.eqb c2 c) eqn:Ec; [|reflexivity]. apply Nat.eqb_eq in Ec. subst c2. rewrite Er. reflexivity. }
       split.
       + intros Hn. rewrite (src_id sc f v Hn) in Hs. subst v. apply He.
       + destruct v; cbn [src] in Hs; try discriminate Hs.
         * (* the default instance, with defaults written into it *)
-          destruct (default_msg_inv sc f _ Hs) as [c1 [Hh Ho]]. unfold new in Ho. inversion Ho; subst c1 raw0 sow unk cur. clear Ho.
+          destruct (default_msg_inv sc f _ Hs) as [c1 [Hh Ho]].
+          assert (Hc : c1 = c) by (unfold new in Ho; inversion Ho; reflexivity). subst c1.
+          assert (Hr : raw0 = map slot (cfields (get_class sc c))) by (unfold new in Ho; inversion Ho; reflexivity).
+          subst raw0. clear Ho.
           intros y. rewrite fcmp_placeholder_l, fcmp_placeholder_r.
           pose proof (mat_isdef' sc Hopt f _ _ Hm) as Hd. cbn [isdef'] in Hd.
           destruct y as [| | | | | | | | | | |[c2 rb s3 u3 g3]];
             try (cbn [fcmp isdef' pv_eq pv_is_nan orb andb];
-                 rewrite (is_default_nonmsg_hint f c _ Hh) by (intros o; discriminate); split; reflexivity).
+                 rewrite ?andb_false_r, (is_default_nonmsg_hint f c _ Hh) by (intros o; discriminate); split; reflexivity).
           -- cbn [fcmp isdef']. rewrite Hd. split; reflexivity.
-          -- cbn [fcmp isdef' pv_is_nan andb]. rewrite !orb_false_r, !pv_eq_msg, is_default_msg, Hh. fold fs. rewrite El.
+          -- cbn [fcmp isdef' pv_is_nan andb]. rewrite !orb_false_r, !pv_eq_msg, is_default_msg, Hh. rewrite El.
              rewrite (proj1 (eq_go_slots c rb)). split.
              ++ destruct (Nat.eqb c c2) eqn:Ec; [|reflexivity]. apply Nat.eqb_eq in Ec. subst c2. reflexivity.
              ++ rewrite (Nat.eqb_sym c2 c). destruct (Nat.eqb c c2) eqn:Ec; [|reflexivity]. apply Nat.eqb_eq in Ec. subst c2.
-                fold fs. rewrite Er. rewrite (proj2 (eq_go_slots c rb)). reflexivity.
+                rewrite Er. rewrite (proj2 (eq_go_slots c rb)). reflexivity.
         * inversion Hs; subst. apply fcmp_of_eqv; try discriminate; try reflexivity; [|apply He].
           intros g. apply (mat_is_default_any sc Hopt f _ _ g Hm). discriminate.
   Qed.
